@@ -23,6 +23,12 @@ func (h Handle) Validate(needCollection bool) error {
 		return fmt.Errorf("missing database in handle")
 	}
 
+	// check database name: as in MongoDB it cannot contain dots, the stored
+	// namespace "db.coll" would otherwise be split at the wrong position
+	if strings.Contains(h[0], ".") {
+		return fmt.Errorf("invalid database name %q in handle", h[0])
+	}
+
 	// check collection
 	if needCollection && h[1] == "" {
 		return fmt.Errorf("missing collection in handle")
